@@ -151,4 +151,8 @@ VARIANTS = [
     ("C20", "reamber/algorithms/pattern/filters/PtnFilter.py", "AND_HIGHER: int = 2**2", "AND_HIGHER: int = 3", B, "C20.R4"),
     ("C20", PTN, "end = bisect_right(offsets, offset + v_window, lo=start)", "end = bisect_left(offsets, offset + v_window, lo=start)", B, "C20.R2"),
     ("C20", "reamber/algorithms/pattern/filters/PtnFilter.py", "is_in = bool(np.any(np.all(self.ar == np.asarray(data), axis=1)))", "is_in = data in self.ar", B, "C20.R4"),
+    ("C20", "reamber/base/Hold.py", "import item_props\n\n\n@item_props()\nclass HoldTail(Note):", "import item_props\nfrom reamber.base.Hit import Hit\n\n\n@item_props()\nclass HoldTail(Hit):", B, "C20.R6"),
+    ("C20", "reamber/base/Hold.py", "import item_props\n\n\n@item_props()\nclass HoldTail(Note):", "import item_props\nfrom reamber.base.Timed import Timed\n\n\n@item_props()\nclass HoldTail(Timed):", T, ""),
+    ("C06", "reamber/quaver/QuaNoteMeta.py", '_props = dict(keysounds=["object", []])', '_props = dict(keysounds=["object", None])', B, "C06.R3"),
+    ("C06", "reamber/algorithms/generate/sv_normalize.py", "return SvList(df_bpm.loc[:, SvList([]).df.columns])", 'return SvList(df_bpm.drop(columns="bpm"))', B, "C06.R9"),
 ]
